@@ -36,7 +36,7 @@ CHECKS = {
         "technique": "property-based testing (rapid) with round-trip + differential oracles: documents read by independent XML/JSON parsers and compared with the reference tree, binary identity after the text round trip; the OASIS vectors and rapid variations of them compared as trees before/after re-encoding",
         "level_text": "Generated-input exploration (part A): messages and single items over the alphabets each format can carry are encoded to XML/JSON; the document must be well-formed for the Go standard library parsers, an independent KMIP-XML/JSON reader (pinned names) must read exactly the tree the reference encoder expects, and decoding must give a message with the byte-identical binary encoding. Part B: all 5310 request/response messages of the 410 OASIS vector files (exhaustive) and rapid value/optional-element variations of them are decoded, re-encoded and compared as trees (order, names, types, normalised values).",
         "level_note": "Independent readers are built on encoding/xml and encoding/json plus the pinned registry; normalisation: hex case, instants, numeric enumerations/masks/big integers, boolean case. Vectors of unimplemented operations are skipped and counted.",
-        "jobs": [rapid("codec", "TestC04Generated", 3000, 10000), rapid("codec", "TestC04Scalars", 6000, 40000, shards=6),
+        "jobs": [rapid("codec", "TestC04Generated", 3000, 10000), rapid("codec", "TestC04Scalars", 6000, 40000, shards=6), rapid("codec", "TestC04SubSecond", 20000, 200000, shards=4),
                  plain("codec", "TestC04Vectors"), rapid("codec", "TestC04Variations", 3000, 20000)],
         "assumptions": ["variations keep discriminating elements (Operation, ObjectType, KeyFormatType, CredentialType, AttributeName, protocol version) unchanged, since changing them does not yield a conformant variation",
                         "a variation the library rejects with an error is only counted"],
@@ -164,7 +164,7 @@ CHECKS = {
         "technique": "property-based testing (rapid): generated message sequences x read-chunk plans x truncation x announced lengths through an instrumented reader; oracle = exact messages, exact bytes consumed, bounded read requests",
         "level_text": "Generated-input exploration of the stream receiver over an instrumented io.Reader that owns the segmentation (1-byte reads, chunks spanning message boundaries, full coalescing, final bytes returned together with io.EOF) and records what was requested and consumed: Recv must return exactly the sent trees in order, consume exactly each message's bytes, turn truncation into an error, and reject announced sizes above the limit without requesting more than the limit.",
         "level_note": "Deterministic (no memory measurement: read requests are observed); messages <= 320 KiB, limits 64/4096/1 MiB.",
-        "jobs": [rapid("codec", "TestC07Framing", 4000, 20000), rapid("codec", "TestC07KmipTarget", 1500, 8000, shards=4)],
+        "jobs": [rapid("codec", "TestC07Framing", 4000, 20000), rapid("codec", "TestC07KmipTarget", 1500, 8000, shards=4), rapid("codec", "TestC07Streams", 3000, 30000, shards=4)],
         "assumptions": ["an io.Reader may return n>0 together with io.EOF (io.Reader contract)"],
     },
     "C18": {
